@@ -47,7 +47,9 @@ def run(ctx):
         return
     prov, wd, swap = pr.provide_handler, pr.withdraw_handler, pr.swap_handler
     hb = rr.hop_builder
-    lp_token = "human(load(I:halo_pair::state::PAIR_INFO).liquidity_token)"
+    lp_token = "human(load(%s).liquidity_token)" % ctx.N.PAIR_INFO
+    N = ctx.N
+    RX, PX, PH = N.exec_enum("router"), N.exec_enum("pair"), N.hook_enum("pair")
 
     # ---- R1: kinds -------------------------------------------------------------------------------------
     sites = common.message_sites(P)
@@ -93,14 +95,14 @@ def run(ctx):
             tpl = all(re.search(r"\.info~Token\.contract_addr$", t) for t in tgt) and empty_funds
         elif root_fn.path in (prov.path, wd.path) and kind in ("cw20::Cw20ExecuteMsg::Mint", "cw20::Cw20ExecuteMsg::Burn"):
             tpl = tgt == {lp_token} and empty_funds
-        elif root_fn.path == acceptor.path and kind in ("haloswap::router::ExecuteMsg::ExecuteSwapOperation", "haloswap::router::ExecuteMsg::AssertMinimumReceive"):
+        elif root_fn.path == acceptor.path and kind in (RX + "::ExecuteSwapOperation", RX + "::AssertMinimumReceive"):
             tpl = tgt == self_addr and empty_funds
-        elif root_fn.path == hb.path and kind == "haloswap::pair::Cw20HookMsg::Swap":
+        elif root_fn.path == hb.path and kind == PH + "::Swap":
             tpl = True   # detailed in R4
         elif root_fn.path == hb.path and kind == "cw20::Cw20ExecuteMsg::Send":
             tpl = empty_funds
-        elif root_fn.path == fr_.add_decimals[3].path and kind == "haloswap::pair::ExecuteMsg::UpdateNativeTokenDecimals":
-            tpl = all(re.match(r"^human\(mload\(I:halo_factory::state::PAIRS\)\[.*\]\.contract_addr\)$", t) for t in tgt) and empty_funds
+        elif root_fn.path == fr_.add_decimals[3].path and kind == PX + "::UpdateNativeTokenDecimals":
+            tpl = all(re.match(r"^human\(mload\(%s\)\[.*\]\.contract_addr\)$" % re.escape(N.PAIRS), t) for t in tgt) and empty_funds
         if tpl is None:
             r1.fail("C07.R1:unknown-execute:%s:%s" % (root_fn.path, kind), fn.path, sp, "Wasm::Execute with payload %s in %s matches no allowed template" % (kind[:120], root_fn.path))
         elif not tpl:
@@ -152,19 +154,19 @@ def run(ctx):
     cv = P.val_call(hop, hop.body, rr.hop_builder_call)
     # hop builder parameters by type
     pair_i = common.param_index_of_type(hb, r"^cosmwasm_std::\S*Addr$")
-    asset_i = common.param_index_of_type(hb, r"^haloswap::asset::Asset$")
+    asset_i = common.param_index_of_type(hb, "^%s$" % N.rx("Asset"))
     if pair_i is None or asset_i is None:
         r4.fail("C07.R4:anchor", hb.path, hb.span, "anchor-missing: hop builder parameters (Addr, Asset)")
     else:
         offer = common.inline_helpers(P, cv[4][asset_i])
-        amt_vals = [x for x in common.walk(offer) if x[0] == "call" and isinstance(x[3], str) and re.search(r"querier::(query_balance|query_token_balance)$", generic_path(x[3]))]
+        amt_vals = [x for x in common.walk(offer) if x[0] == "call" and (N.is_fn(x[3], "q_balance") or N.is_fn(x[3], "q_token_balance"))]
         amt = set(ctx.roots(offer, (("f", "amount"),)))
         good = True
-        if not amt or not all(re.match(r"^C:haloswap::querier::(query_balance|query_token_balance)@", a) for a in amt):
+        if not amt or not all(re.match(r"^C:(%s|%s)@" % (N.rx("q_balance"), N.rx("q_token_balance")), a) for a in amt):
             r4.fail("C07.R4:amount-origin", hop.path, common.span_of_block_term(hop, rr.hop_builder_call), "hop amount ⊢ %s, expected a balance query" % sorted(amt))
             good = False
         for q in amt_vals:
-            name = common.last_seg(q[3])
+            name = "query_balance" if N.is_fn(q[3], "q_balance") else "query_token_balance"
             acct = set(ctx.roots(q[4][1] if name == "query_balance" else q[4][2]))
             if acct != {own}:
                 r4.fail("C07.R4:balance-account:%s" % name, hop.path, common.span_of_block_term(hop, q[2]), "%s queries the balance of %s, expected the router's own address" % (name, sorted(acct)))
@@ -172,11 +174,11 @@ def run(ctx):
             what = set(ctx.roots(q[4][2] if name == "query_balance" else q[4][1]))
             info_roots = set(ctx.roots(offer, (("f", "info"),)))
             r4.site("%s(account ⊢ router, asset ⊢ %s)" % (name, sorted(what)[0][-60:]))
-        if len({common.last_seg(q[3]) for q in amt_vals}) != 2:
+        if len({generic_path(q[3]) for q in amt_vals}) != 2:
             r4.fail("C07.R4:balance-kinds", hop.path, hop.span, "expected one native and one cw20 balance query feeding the hop amount, found %s" % sorted({common.last_seg(q[3]) for q in amt_vals}))
         # pair target
         tgt = set(ctx.roots(cv[4][pair_i]))
-        if not all(re.match(r"^C:haloswap::querier::query_pair_info@.*\.contract_addr$", t) for t in tgt) or not tgt:
+        if not all(re.match(r"^C:%s@.*\.contract_addr$" % N.rx("q_pair_info"), t) for t in tgt) or not tgt:
             r4.fail("C07.R4:pair-target", hop.path, common.span_of_block_term(hop, rr.hop_builder_call), "hop is sent to %s, expected the factory's Pair answer" % sorted(tgt))
         else:
             r4.site("hop target ⊢ factory Pair query .contract_addr")
@@ -186,7 +188,7 @@ def run(ctx):
                 continue
             pay = "|".join(sorted(payload))
             f = dict(v[3])
-            if pay.startswith("bin(A:haloswap::pair::Cw20HookMsg::Swap{"):
+            if pay.startswith("bin(A:%s::Swap{" % PH):
                 coins = [x for x in common.walk(f["funds"]) if x[0] == "agg" and str(x[2]).endswith("Coin")]
                 ok = tg == {P_(hb, pair_i)} and len(coins) == 1
                 if ok:
@@ -222,7 +224,7 @@ def run(ctx):
         elif c.path == wd.path:
             s_i = common.param_index_of_type(wd, r"^cosmwasm_std::\S*Addr$")
             want = {P_(wd, s_i)}
-        elif c.impl_self == "haloswap::asset::Asset" and not [x for x in P.callers(c.path) if "::tests::" not in x[0].path]:
+        elif c.impl_self == N.Asset and not [x for x in P.callers(c.path) if "::tests::" not in x[0].path]:
             r5.notes.append("%s forwards to the transfer constructor and has no production caller" % c.path)
             continue
         else:
